@@ -29,7 +29,7 @@ def generate(module, env=None, workers=12, timeout=900, coverage=True, cfg="lang
     if r.rc != 0:
         raise common.ToolError("TLC failed on %s (rc=%s): %s\n%s" % (module, r.rc, r.errors[:3], "\n".join(r.tail[-15:])))
     if coverage:
-        dead = [a for a, (d, t) in r.coverage.items() if t == 0 and a in ("GenSimple", "GenOpen", "GenClose", "GenFinish", "Run")]
+        dead = [a for a, (d, t) in r.coverage.items() if t == 0 and a in ("GenSimple", "GenFinish", "Run")]
         if dead:
             raise common.ToolError("vacuous model %s: actions never taken: %s" % (module, dead))
     return r
